@@ -304,7 +304,7 @@ def run(ctx):
                 "row-major/inverse predicates; distributions: seeded random tensors with exact zeros and sub-threshold entries, "
                 "all listed subsets/orders of retained axes and conditioning assignments, plus a malformed stream; "
                 "non-trivial = at least two variables (rank >= 2), distinct = distinct (shape, data, query)")
-    flow.standard_run(ctx, SUBS)
+    flow.standard_run(ctx, SUBS, regens=[("index_util", "C16_Equiv")])
 
 
 def replay(ctx, doc):
